@@ -77,6 +77,10 @@ RECURSIVE_IDIOMS = [
     'm(X,[_|T]) :- m(X,T).',
     'app([],L,L).',
     'app([H|T],L,[H|R]) :- app(T,L,R).',
+    # lnk(N,X,Y): X and Y end up aliased through a chain of 2*N+1 variable-to-variable links
+    'eq(X,X).',
+    'lnk(z,X,X).',
+    'lnk(s(N),X,Y) :- eq(X,Z), lnk(N,Z,Y).',
 ]
 
 
@@ -161,8 +165,10 @@ class BodyGen:
             return 'call(%s)' % ','.join([name if ar == 1 else '%s(%s)' % (name, ','.join(args[:-1]))] + args[-1:])
         if k < 0.92:
             return 'findall(%s,%s,%s)' % (rng.choice(v), self.call(), rng.choice(v))
-        if k < 0.96:
+        if k < 0.95:
             return 'm(%s,[%s,b,%s])' % (rng.choice(v), rng.choice(v), rng.choice(v))
+        if k < 0.975:
+            return 'lnk(%s,%s,%s)' % (rng.choice(['s(s(z))', 's(s(s(s(s(z)))))', 's(s(s(s(s(s(s(z)))))))']), rng.choice(v), rng.choice(v))
         return 'app(%s,%s,[a,%s])' % (rng.choice(v), rng.choice(v), rng.choice(v))
 
     def body(self, d):
